@@ -175,7 +175,15 @@ fn run_case(o: &Opts, case_seed: u64, case_index: u64) -> CaseReport {
         return rep;
     }
     if o.sub.starts_with("fault") {
-        return crate::camp_fault::fault_case(o, case_seed);
+        let mut rep = crate::camp_fault::fault_case(o, case_seed);
+        if o.prop == "C23" {
+            // only memory clauses are judged here (by the sanitizer the run executes under);
+            // recovery after the injected panic belongs to C22
+            rep.counts.add("recovery_mismatches_not_judged_here", rep.violations.len() as u64);
+            rep.violations.clear();
+            rep.inconclusive.clear();
+        }
+        return rep;
     }
     match o.prop.as_str() {
         "C01" | "C02" | "C04" | "C05" | "C06" | "C07" | "C08" | "C09" | "C10" | "C11" | "C03" => {
